@@ -289,12 +289,19 @@ func HarnessC07Float(a []int) {
 	switch {
 	case x > hi:
 		verifCover("C07.above")
-		_, yhi, _ := c07EncDec(name, hi)
+		ehi, yhi, _ := c07EncDec(name, hi)
 		verifAssert("C07.saturates.high", y == yhi)
+		// the bound itself is encoded accurately (otherwise the comparison above is self-referential)
+		dh := float64(yhi) - float64(hi)
+		th := c07Step(main, sub, ehi) * (1 + 1.0/1024)
+		verifAssert("C07.saturates.high_is_bound", dh <= th && -dh <= th)
 	case x < lo:
 		verifCover("C07.below")
-		_, ylo, _ := c07EncDec(name, lo)
+		elo, ylo, _ := c07EncDec(name, lo)
 		verifAssert("C07.saturates.low", y == ylo)
+		dl := float64(ylo) - float64(lo)
+		tl := c07Step(main, sub, elo) * (1 + 1.0/1024)
+		verifAssert("C07.saturates.low_is_bound", dl <= tl && -dl <= tl)
 	default:
 		verifCover("C07.inrange")
 		diff := float64(y) - float64(x)
